@@ -253,6 +253,11 @@ def run(ctx):
     n = r8merge.check(ctx, ctx.need_fn(prog, "merge_requests"), "R8.merge",
                       {"off": "*segs[%d].off", "len": "*segs[%d].len", "addr": "*segs[%d].buf_addr", "n": "*nsegs"})
     ctx.require(n >= 1000, "R8.merge: only %d segment lists evaluated" % n)
+    from rules import r8contig
+    ctx.rule("R8.contig", "a request classified contiguous by is_request_contiguous is one run of consecutive elements (bounded)")
+    fprog = ctx.program(names=["ncmpio_filetype.c"])
+    nc_ = r8contig.check(ctx, ctx.need_fn(fprog, "is_request_contiguous"), "R8.contig")
+    ctx.require(nc_ >= 1000, "R8.contig: only %d requests evaluated" % nc_)
     from rules import r8flat
     ctx.rule("R8.flatten", "vars_flatten addresses exactly the requested elements, in packed-buffer order (bounded)")
     nf = r8flat.check(ctx, ctx.need_fn(prog, "vars_flatten"), "R8.flatten", "segs")
